@@ -25,17 +25,18 @@ P = lambda n: ("param", n)
 def run(prog, rep):
     rep.explanation = EXPL
     rep.assumptions = ASSUME
-    pdf_chain(prog, rep)
-    finite(prog, rep)
-    argorder(prog, rep)
-    delegate(prog, rep)
-    mc(prog, rep)
+    rep.part(pdf_chain, prog, rep)
+    rep.part(finite, prog, rep)
+    rep.part(argorder, prog, rep)
+    rep.part(delegate, prog, rep)
+    rep.part(mc, prog, rep)
     rep.expect_min("C06.chain", 6)
     rep.expect_min("C06.finite", 3)
     rep.expect_min("C06.argorder", 14)
     rep.expect_min("C06.delegate", 3)
     rep.expect_min("C06.mc", 1)
-
+    from .purity import row as _stateless_row
+    rep.part(_stateless_row, prog, rep, "C06", 4)
 
 def pdf_chain(prog, rep):
     fn = prog.func(f"{GHM}.pdf")
